@@ -8,8 +8,10 @@ Abstract paths are component lists; the world root is ["/", "R"] and is mapped t
 <worker scratch>/R on disk (the directory is really called "R" because its name becomes the
 torrent name when file paths from two trees are combined).
 """
+import fnmatch
 import hashlib
 import os
+import re
 import signal
 
 from harness import common
@@ -113,8 +115,51 @@ def glob_of_str(s):
     return ['other', s]
 
 
-def do_op(torf, t, op, root):
+RX_OPS = ('rxAppend', 'rxExtend', 'rxIadd', 'rxSet', 'rxSetSlice', 'rxDel', 'rxClear', 'rxIaddAttr')
+
+
+def _rx_list(t, op, held):
+    """the regex filter list the operation works on: the attribute read now, or (op['held']) the
+    list object obtained at the first such operation of the history and kept since"""
+    get = (lambda: t.include_regexs) if op['inc'] else (lambda: t.exclude_regexs)   # noqa
+    if op.get('held') and held is not None:
+        key = ('rx', bool(op['inc']))
+        if key not in held:
+            held[key] = get()
+        return held[key]
+    return get()
+
+
+def do_op(torf, t, op, root, held=None):
     k = op['k']
+    if k in RX_OPS:
+        if k == 'rxSet':                 # assignment to the attribute (the setter does `lst[:] = value`)
+            if op['inc']:
+                t.include_regexs = list(op['ps'])
+            else:
+                t.exclude_regexs = list(op['ps'])
+            return 'ok'
+        if k == 'rxIaddAttr':            # `t.exclude_regexs += [...]`: getter, __iadd__, then the SETTER with the list itself
+            if op['inc']:
+                t.include_regexs += list(op['ps'])
+            else:
+                t.exclude_regexs += list(op['ps'])
+            return 'ok'
+        lst = _rx_list(t, op, held)
+        if k == 'rxAppend':
+            lst.append(op['p'])
+        elif k == 'rxExtend':
+            lst.extend(list(op['ps']))
+        elif k == 'rxIadd':              # `lst += [...]` on a local name: in-place extend, no setter
+            lst += list(op['ps'])
+        elif k == 'rxSetSlice':
+            lst[op['a']:op['b']] = list(op['ps'])
+        elif k == 'rxDel':
+            if len(lst):
+                del lst[op['i'] % len(lst)]
+        elif k == 'rxClear':
+            lst.clear()
+        return 'ok'
     if k == 'setPath':
         t.path = None if op['p'] is None else real(root, op['p'])
     elif k == 'setFiles':
@@ -146,6 +191,11 @@ def do_op(torf, t, op, root):
             t.exclude_globs = v
     elif k == 'globAppend':
         (t.include_globs if op['inc'] else t.exclude_globs).append(glob_str(op['g']))
+    elif k == 'globIaddAttr':            # `t.exclude_globs += [...]` (attribute level, see rxIaddAttr)
+        if op['inc']:
+            t.include_globs += [glob_str(g) for g in op['gs']]
+        else:
+            t.exclude_globs += [glob_str(g) for g in op['gs']]
     elif k == 'globDel':
         lst = t.include_globs if op['inc'] else t.exclude_globs
         if len(lst):
@@ -190,6 +240,10 @@ def project(t, root):
         'pmin': t.piece_size_min, 'pmax': t.piece_size_max,
         'exGlobs': [glob_of_str(g) for g in t.exclude_globs],
         'inGlobs': [glob_of_str(g) for g in t.include_globs],
+        'exRegexs': [getattr(r, 'pattern', repr(r)) for r in t.exclude_regexs],
+        'inRegexs': [getattr(r, 'pattern', repr(r)) for r in t.include_regexs],
+        'filterTypesOk': (all(isinstance(g, str) for g in list(t.exclude_globs) + list(t.include_globs)) and
+                          all(isinstance(r, re.Pattern) for r in list(t.exclude_regexs) + list(t.include_regexs))),
         'size': t.size, 'numPieces': t.pieces,
         'listed': [[list(f.parts), f.size] for f in t.files],
         'filepaths': [abstract(root, fp) for fp in t.filepaths],
@@ -295,6 +349,93 @@ def spec_check(torf, t, obs, root):
     return dev
 
 
+def rx_valid(p):
+    try:
+        re.compile(p)
+        return True
+    except re.error:
+        return False
+
+
+def op_patterns(op):
+    return [op['p']] if 'p' in op and op['k'] in RX_OPS else list(op.get('ps', ())) if op['k'] in RX_OPS else []
+
+
+def expected_listed(tree, obs):
+    """What `path = <world tree>` must list under the filter lists that ARE in the torrent now
+    (read back in `obs`): hidden files are left out, a file is kept if an include pattern matches,
+    otherwise dropped if an exclude pattern matches; patterns see `<tree name>/<relative path>`
+    (regex: search; glob: case-insensitive fnmatch).  Independent of torf's filter_files."""
+    spec = TREES[tree]
+    cands = [([tree], spec)] if isinstance(spec, int) else \
+            [([tree] + rel.split('/'), sz) for rel, sz in spec.items()]
+    in_g = [glob_str(g) if g[0] != 'other' else g[1] for g in obs['inGlobs']]
+    ex_g = [glob_str(g) if g[0] != 'other' else g[1] for g in obs['exGlobs']]
+    keep = []
+    for comps, sz in cands:
+        if any(c.startswith('.') for c in comps[1:]):
+            continue
+        s = '/'.join(comps)
+        if any(re.search(p, s) for p in obs['inRegexs']) or any(fnmatch.fnmatchcase(s.casefold(), g.casefold()) for g in in_g):
+            keep.append([comps, sz])
+        elif any(re.search(p, s) for p in obs['exRegexs']) or any(fnmatch.fnmatchcase(s.casefold(), g.casefold()) for g in ex_g):
+            continue
+        else:
+            keep.append([comps, sz])
+    return sorted(keep)
+
+
+def _filters(o):
+    return (o['exGlobs'], o['inGlobs'], o['exRegexs'], o['inRegexs'])
+
+
+def _content(o):
+    return (o['mode'], o['length'], o['files'], o['pl'], o['path'])
+
+
+def filter_codes(op, res, pre, obs, tree):
+    """The filter clauses of C09 on the real object: the listed files follow the filters that are
+    actually in the lists; hashes do not survive a change of filters / files / piece length; an
+    invalid regular expression is rejected with re.error (and a valid one is not); a rejected
+    single assignment / append changes nothing."""
+    dev = []
+    if not obs['filterTypesOk']:
+        dev.append('filter-list-holds-a-non-pattern')      # e.g. None instead of the pattern that was given
+    if tree is not None:
+        # compared without the first path component (the torrent's name, which `name = …` may change)
+        got = sorted(obs['files']) if obs['mode'] == 2 else [[[], obs['length']]] if obs['mode'] == 1 else []
+        if got != [[comps[1:], sz] for comps, sz in expected_listed(tree, obs)]:
+            dev.append('files-do-not-follow-filters')
+    if pre is not None and op['k'] != 'generate' and pre['pieces'] is not None and obs['pieces'] is not None:
+        if _filters(pre) != _filters(obs):
+            dev.append('pieces-survived-filter-change')
+        if _content(pre) != _content(obs):
+            dev.append('pieces-survived-content-change')
+    if op['k'] in RX_OPS:
+        bad = [p for p in op_patterns(op) if not rx_valid(p)]
+        if bad and res != 're.error':
+            dev.append('invalid-regex-not-rejected')
+        if not bad and res == 're.error':
+            dev.append('valid-regex-rejected')
+        if res == 're.error' and op['k'] in ('rxAppend', 'rxSet', 'rxSetSlice') and pre is not None and \
+                (_filters(pre) != _filters(obs) or _content(pre) != _content(obs) or pre['pieces'] != obs['pieces']):
+            dev.append('rejected-filter-assignment-changed-state')
+    return dev
+
+
+def tree_after(op, res, tree):
+    """which world tree the file list was last read from by `path = <tree>` (None: unknown / the
+    list was edited by hand since)"""
+    k = op['k']
+    if k == 'setPath':
+        p = op['p']
+        ok = res == 'ok' and p is not None and len(p) == 3 and p[:2] == ROOT and p[2] in TREES
+        return p[2] if ok else None
+    if k in ('setFiles', 'filesDel', 'filesAppend', 'filesClear', 'setFilepaths', 'fpDel', 'fpAppend', 'fpClear'):
+        return None
+    return tree
+
+
 DOCUMENTED = {'PieceSizeError', 'PathError', 'CommonPathError', 'ReadError', 'RuntimeError'}
 
 
@@ -334,24 +475,33 @@ def run_history(torf, ops, root, stop_on_deviation=True, timeout=60):
         except Exception as e:   # noqa: a fresh Torrent() cannot even be built / inspected
             return {'init': None, 'steps': [{'obs': None, 'res': type(e).__name__,
                                              'dev': ['constructor-raised-' + type(e).__name__]}]}
+        held = {}
+        tree = None
+        pre = init
         for op in ops:
             dev = []
             try:
-                res = do_op(torf, t, op, root)
+                res = do_op(torf, t, op, root, held)
                 if res != 'ok':
                     dev.append(res)
             except torf.TorfError as e:
                 res = type(e).__name__
+            except re.error as e:
+                # the documented exception of the regex filter lists; anywhere else it is undocumented
+                res = 're.error' if op['k'] in RX_OPS else 're.error-outside-regex-filter-operation'
             except RuntimeError as e:
                 res = 'RuntimeError'
             except _Timeout:
                 raise
             except Exception as e:   # noqa: undocumented exception type
                 res = type(e).__name__
-            if res != 'ok' and res not in DOCUMENTED and not res.startswith('generate-'):
+            if res != 'ok' and res not in DOCUMENTED and res != 're.error' and not res.startswith('generate-'):
                 dev.append('undocumented-exception-' + res)
             obs = project(t, root)
             dev += spec_check(torf, t, obs, root)
+            tree = tree_after(op, res, tree)
+            dev += filter_codes(op, res, pre, obs, tree)
+            pre = obs
             steps.append({'obs': obs, 'res': res, 'dev': dev})
             if dev and stop_on_deviation and not _resumable(ops, len(steps) - 1, dev):
                 break
